@@ -82,7 +82,7 @@ def extra_coverage(units, tier):
 
 
 NOT_COVERED = [
-    "exp(log q), setAxisAngle(axis(),angle()), extractQuat(toMatrix44), setRotation(from,to) incl. the antipodal fallback, slerp / slerpShortestArc / squad / spline, Quat vs Matrix44 setAxisAngle: transcendental functions and normalisation",
+    "exp(log q), setAxisAngle(axis(),angle()), extractQuat(toMatrix44), setRotation(from,to) incl. the antipodal fallback, slerp itself (unit norm, endpoints, linear 4-D angle), tangent continuity of spline (analytic; only the composition structure of slerpShortestArc / squad / intermediate / spline is proved), Quat vs Matrix44 setAxisAngle: transcendental functions and normalisation",
     "q * inverse(q) == identity (division by q^q is not a ring operation; q * ~q == N is the ring statement)",
 ]
 ASSUMPTIONS = ["RING mode (see C05)", "cxx2c extraction rules; differential validation"]
